@@ -12,6 +12,9 @@ mod common;
 mod device;
 mod interpose;
 mod logw;
+mod net;
+mod netoracle;
+mod netw;
 mod oracles;
 mod registry;
 mod rng;
@@ -19,6 +22,10 @@ mod runner;
 
 use common::*;
 use std::path::{Path, PathBuf};
+
+pub fn netw_class(e: &net::SimError) -> String {
+    netw::class_of_pub(e)
+}
 
 fn env_seed() -> u64 {
     std::env::var("VERIF_SEED")
@@ -36,6 +43,12 @@ fn child_runtime() -> tokio::runtime::Runtime {
 }
 
 fn execute(plan: Plan, dir: &Path) -> RunOutcome {
+    if let Ok(f) = std::env::var("SOSSIM_LOG") {
+        let _ = tracing_subscriber::fmt()
+            .with_env_filter(tracing_subscriber::EnvFilter::new(f))
+            .with_writer(std::io::stderr)
+            .try_init();
+    }
     interpose::seed_rng(plan.seed);
     interpose::clock_enable(interpose::CLOCK_BASE_NS, 1_000_003);
     let rt = child_runtime();
@@ -45,6 +58,7 @@ fn execute(plan: Plan, dir: &Path) -> RunOutcome {
         match family.as_str() {
             "logw" => logw::execute(plan, &dir).await,
             "acct" => acct::execute(plan, &dir).await,
+            "netw" => netw::execute(plan, &dir).await,
             other => panic!("unknown family {other}"),
         }
     });
@@ -55,6 +69,7 @@ fn generate(family: &str, property: &str, seed: u64, tier: Tier) -> Plan {
     match family {
         "logw" => logw::generate(property, seed, tier),
         "acct" => acct::generate(property, seed, tier),
+        "netw" => netw::generate(property, seed, tier),
         other => panic!("unknown family {other}"),
     }
 }
